@@ -272,7 +272,14 @@ def run_list_case(case):
         return [j]
     if res[0] != "ok":
         return []
+    before = case.get("before", 0)
+    if before:
+        # the explorer asks one paragraph object about many names: replay the queries that came first
+        for nm in strings(case["na"], 0, case["n"])[:before]:
+            observe(res[1], nm)
     j = judge(files, name, observe(res[1], name))
+    if j and before:
+        j = ("matches/history-dependent/" + j[0],) + tuple(j[1:])
     return [j] if j else []
 
 
@@ -321,7 +328,7 @@ def _explore_lists(part, u, lists, names, model_cache, selfcheck=False):
                 part.outcomes["rejected-when-installed"] += 1
                 continue
             fp = res[1]
-            for nm in names:
+            for qi, nm in enumerate(names):
                 got = observe(fp, nm)
                 if invalid:
                     exp = "ERR"
@@ -338,11 +345,20 @@ def _explore_lists(part, u, lists, names, model_cache, selfcheck=False):
                     j = judge(files, nm, got)
                     if j is None:
                         raise AssertionError("table and judge() disagree on %r" % (case,))
-                    if part.viol_sigs[j[0]] < core.MAX_STORED_PER_SIG:
+                    sig = j[0]
+                    hsig = "matches/history-dependent/" + sig
+                    if part.viol_sigs[hsig] >= core.MAX_STORED_PER_SIG and part.viol_sigs[sig] == 0:
+                        # only ever seen as history-dependent in this unit; the stored cases were verified by re-execution
+                        sig = hsig
+                    elif part.viol_sigs[sig] < core.MAX_STORED_PER_SIG or part.viol_sigs[hsig] < core.MAX_STORED_PER_SIG:
                         # the cases that get stored are re-executed from scratch, exactly as replay does
-                        if [b[0] for b in run_list_case(case)] != [j[0]]:
-                            raise AssertionError("explorer and run_list_case disagree on %r" % (case,))
-                    part.violation(j[0], case, j[1], j[2])
+                        if [b[0] for b in run_list_case(case)] != [sig]:
+                            # a fresh paragraph answers differently: the answer depends on the earlier queries
+                            case = dict(case, na=u["na"], n=u["n"], before=qi)
+                            sig = "matches/history-dependent/" + sig
+                            if [b[0] for b in run_list_case(case)] != [sig]:
+                                raise AssertionError("explorer and run_list_case disagree on %r" % (case,))
+                    part.violation(sig, case, j[1], j[2])
                 if first:
                     if exp is not False:
                         part.nontrivial += 1
@@ -636,7 +652,14 @@ def run_doc_case(case):
         return [j]
     if res[0] != "ok":
         return []
+    before = case.get("before", 0)
+    if before:
+        # the explorer asks one document object about many names: replay the queries that came first
+        for nm in strings(case["na"], 0, case["n"])[:before]:
+            observe_find(res[1], res[2], nm)
     j = judge_find(file_lists, case["name"], observe_find(res[1], res[2], case["name"]), res[2])
+    if j and before:
+        j = ("find/history-dependent/" + j[0],) + tuple(j[1:])
     return [j] if j else []
 
 
@@ -671,7 +694,7 @@ def _docs(part, u):
                     part.outcomes["doc:rejected-when-built"] += 1
                     continue
                 doc, paras = res[1], res[2]
-                for nm, ok, cls in per_name:
+                for qi, (nm, ok, cls) in enumerate(per_name):
                     got = observe_find(doc, paras, nm)
                     part.traces += 1
                     part.evaluations += 1
@@ -680,10 +703,19 @@ def _docs(part, u):
                         j = judge_find(file_lists, nm, got, paras)
                         if j is None:
                             raise AssertionError("table and judge_find() disagree on %r" % (case,))
-                        if part.viol_sigs[j[0]] < core.MAX_STORED_PER_SIG:
-                            if [b[0] for b in run_doc_case(case)] != [j[0]]:
-                                raise AssertionError("explorer and run_doc_case disagree on %r" % (case,))
-                        part.violation(j[0], case, j[1], j[2])
+                        sig = j[0]
+                        hsig = "find/history-dependent/" + sig
+                        if part.viol_sigs[hsig] >= core.MAX_STORED_PER_SIG and part.viol_sigs[sig] == 0:
+                            # only ever seen as history-dependent in this unit; the stored cases were verified by re-execution
+                            sig = hsig
+                        elif part.viol_sigs[sig] < core.MAX_STORED_PER_SIG or part.viol_sigs[hsig] < core.MAX_STORED_PER_SIG:
+                            if [b[0] for b in run_doc_case(case)] != [sig]:
+                                # a fresh document answers differently: the answer depends on the earlier queries
+                                case = dict(base, name=nm, na=u["na"], n=u["n"], before=qi)
+                                sig = "find/history-dependent/" + sig
+                                if [b[0] for b in run_doc_case(case)] != [sig]:
+                                    raise AssertionError("explorer and run_doc_case disagree on %r" % (case,))
+                        part.violation(sig, case, j[1], j[2])
                     if route == "parse":
                         part.outcomes[cls] += 1
                         if mask == 0 and cls == "doc:several-matches":
